@@ -513,8 +513,9 @@ def reaction_oracle(sc):
             return None      # the script ended the connection before the GOAWAY could reach the wire (throttled writes): no verdict
         if consumed and goaway is None and st["op"].get("op") == "poll_accept" and isinstance(st["res"], dict) and "sid" in st["res"]:
             # accepted a stream from frames fed after the violation? only count streams whose HEADERS were fed after it
-            fed_after = any(t["i"] > step and t["op"].get("op") == "peer" and isinstance(t["op"].get("what"), dict)
-                            and t["op"]["what"].get("t") == "HEADERS" and t["op"]["what"].get("sid") == st["res"]["sid"] for t in sc["trace"])
+            opening = [t["i"] for t in sc["trace"] if t["op"].get("op") == "peer" and isinstance(t["op"].get("what"), dict)
+                       and t["op"]["what"].get("t") == "HEADERS" and t["op"]["what"].get("sid") == st["res"]["sid"]]
+            fed_after = bool(opening) and min(opening) > step      # the HEADERS that OPENED it (later ones are trailers)
             if fed_after:
                 accepted_after = st["i"]
     if not consumed:
